@@ -55,7 +55,7 @@ RW_NOTE = ("TLC checks the model-level facts (rule validity over GF(p), Runner.t
            "representative terms built from enodes(), the independent fingerprint.")
 CHECKS["C03"] = ("Model.tla (GF(p) semantics, Terms.Inst) + MC_Model: every pool rule valid for all admissible substitutions/environments; TraceRewrite.tla validates recorded rewriting runs: every class member evaluated under ALL environments",
          "with model-valid rules every e-node of every class and the start term denote one function of the class slots, independent of other slots, on all recorded runs (both substitution methods, conditional rules, binder-moving rules)", "5 C03")
-CHECKS["C15"] = ("Runner.tla/RunnerOps.tla model-checked (bounded termination, truthful limit reasons incl. time limits on an abstract clock, liveness); TraceRewrite.tla validates every recorded iteration/stop/report of Runner::run, run_eqsat and apply_rewrites against the specified stop decision using an independent fingerprint",
+CHECKS["C15"] = ("Runner.tla/RunnerOps.tla model-checked (bounded termination, truthful limit reasons incl. time limits on an abstract clock, liveness; apalache/RunnerInd.tla: inductive invariants for all limits discharged by Apalache); TraceRewrite.tla validates every recorded iteration/stop/report of Runner::run, run_eqsat and apply_rewrites against the specified stop decision using an independent fingerprint",
          "apply_rewrites returns false only when nothing observable changed; every stop reason and report field is the one the control-loop specification allows; saturation re-checked", "5 C15")
 NOTES_EXTRA["C03"] = RW_NOTE
 NOTES_EXTRA["C15"] = RW_NOTE
